@@ -6,12 +6,14 @@ From OV Require Import Model.Num Model.Pressure Model.Deps Proofs.MemDep.
 Import ListNotations.
 Open Scope Z_scope.
 
+(* addr_load: the address a load reads, in the register file AFTER the load's own register changes (a pre-indexed
+   load reads from its already bumped base; for every other load it is the ordinary base + index*scale + disp) *)
 (* SOUNDNESS: whenever the model links a load operand `src` to an earlier store operand `mem` under tracked register
    changes s that describe the current register file relative to the one at the store, both addresses are equal *)
 Theorem C06_memdep_sound : forall mem s src rho0 rho,
   describes s rho0 rho -> memload_one mem s src = true ->
   (match m_off src with OSym => False | _ => True end) ->
-  addr rho src = addr rho0 mem.
+  addr_load rho src = addr rho0 mem.
 Proof. exact memload_sound. Qed.
 Print Assumptions C06_memdep_sound.
 
@@ -34,28 +36,66 @@ Print Assumptions C06_memdep_none_on_shape_mismatch.
 Theorem C06_memdep_complete_simple : forall b d k1 k2 pre post,
   memload_one (mkM (Some b) None 1 (OImm d) pre post k1) [] (mkM (Some b) None 1 (OImm d) false false k2) = true.
 Proof.
-  intros. unfold memload_one. cbn [m_off m_base m_index m_scale]. unfold lookup_change. cbn [rs_get].
+  intros. unfold memload_one. cbn [m_off m_base m_index m_scale m_pre]. unfold lookup_change. cbn [rs_get].
   rewrite String.eqb_refl. apply Z.eqb_eq. lia.
 Qed.
 Print Assumptions C06_memdep_complete_simple.
+
+(* a PRE-indexed load `ldr x, [b, #d]!` after a store to [b, #d]: the tracked state already contains the bump d of b, and
+   the load is linked (the shipped code added d a second time and linked [b, #2d] instead -- fixed in /repo) *)
+Theorem C06_memdep_complete_preindexed_load : forall b d k1 k2,
+  memload_one (mkM (Some b) None 1 (OImm d) false false k1) [(fullname b, Some (fullname b, d))]
+              (mkM (Some b) None 1 (OImm d) true false k2) = true.
+Proof.
+  intros. unfold memload_one. cbn [m_off m_base m_index m_scale m_pre]. unfold lookup_change. cbn [rs_get].
+  rewrite String.eqb_refl. rewrite String.eqb_refl. apply Z.eqb_eq. lia.
+Qed.
+Print Assumptions C06_memdep_complete_preindexed_load.
+
+Theorem C06_memdep_preindexed_load_other_cell : forall b d k1 k2, d <> 0 ->
+  memload_one (mkM (Some b) None 1 (OImm (d + d)) false false k1) [(fullname b, Some (fullname b, d))]
+              (mkM (Some b) None 1 (OImm d) true false k2) = false.
+Proof.
+  intros b d k1 k2 Hd. unfold memload_one. cbn [m_off m_base m_index m_scale m_pre]. unfold lookup_change. cbn [rs_get].
+  rewrite String.eqb_refl. rewrite String.eqb_refl. apply Z.eqb_neq. lia.
+Qed.
+Print Assumptions C06_memdep_preindexed_load_other_cell.
 
 (* a different adjusted displacement gives no link (same base, no index) *)
 Theorem C06_memdep_none_on_displacement : forall b d1 d2 k1 k2 pre post,
   d1 <> d2 ->
   memload_one (mkM (Some b) None 1 (OImm d1) pre post k1) [] (mkM (Some b) None 1 (OImm d2) false false k2) = false.
 Proof.
-  intros. unfold memload_one. cbn [m_off m_base m_index m_scale]. unfold lookup_change. cbn [rs_get].
+  intros. unfold memload_one. cbn [m_off m_base m_index m_scale m_pre]. unfold lookup_change. cbn [rs_get].
   rewrite String.eqb_refl. apply Z.eqb_neq. lia.
 Qed.
 
 (* a later store to the same operand ends the search; the weight adds the forwarding latency (definitional) *)
 Theorem C06_later_store_kills : forall (T : Type) dep fd m (l : line (T:=T)) more s,
-  andb (m_pre m) (match m_base m with Some b => is_written dep (OReg b) l | None => false end) = false ->
-  andb (m_post m) (match m_base m with Some b => is_written dep (OReg b) l | None => false end) = false ->
   is_memstore m l = true ->
   scan dep fd (OMem m) (l :: more) s =
   (if is_memload m l (update_changes s (l_chg l)) then [(l_no l, FStoreLoad)] else []).
-Proof. intros T dep fd m l more s H1 H2 H3. cbn [scan]. rewrite H1, H2, H3. reflexivity. Qed.
+Proof. intros T dep fd m l more s H3. cbn [scan]. rewrite H3. reflexivity. Qed.
+Print Assumptions C06_later_store_kills.
+
+(* nothing else ends the search of a store operand (in particular not a write to the base register of a pre-/post-indexed
+   store: it is tracked in the state like for any other store -- the shipped code stopped there, fixed in /repo) *)
+Theorem C06_search_continues : forall (T : Type) dep fd m (l : line (T:=T)) more s,
+  is_memstore m l = false ->
+  scan dep fd (OMem m) (l :: more) s =
+  (if is_memload m l (update_changes s (l_chg l)) then [(l_no l, FStoreLoad)] else [])
+  ++ scan dep fd (OMem m) more (update_changes (update_changes s (l_chg l)) (l_chg_post l)).
+Proof. intros T dep fd m l more s H3. cbn [scan]. rewrite H3. reflexivity. Qed.
+Print Assumptions C06_search_continues.
+
+(* non-vacuity: AArch64  str x9,[x2],#8 ; sub x2,x2,#8 ; ldr x1,[x2]  -- post-index bump of the store itself and the later
+   decrement cancel *)
+Example C06_nonvacuous_postindexed_store :
+  let x2 := mkR "2" "x" false in
+  memload_one (mkM (Some x2) None 1 ONone false true 0)
+              (update_one (update_one (update_one [] "x2" (Some ("x2"%string, 0))) "x2" (Some ("x2"%string, 8))) "x2" (Some ("x2"%string, -8)))
+              (mkM (Some x2) None 1 ONone false false 1) = true.
+Proof. vm_compute. reflexivity. Qed.
 
 (* non-vacuity: x86  mov %rdx,8(%rax) ; add $8,%rax ; mov 0(%rax),%rsi  -- the bump is accounted for *)
 Example C06_nonvacuous :
